@@ -21,7 +21,7 @@ Fixpoint stmt_total (s : stmt) : bool :=
   | SSeq a b => stmt_total a && stmt_total b
   | SIf c t e => expr_total c && stmt_total t && stmt_total e
   | SSync _ _ _ | SSyncPart _ _ _ _ | SBytesVec _ _ | SHalf _ _ | SNiString _ _ _ | SStrRef _ _ _
-  | SCStr _ _ | SRef _ _ | SRefArr _ _ _ _ _ _ | SCleanRefs _ _ _ _ _ | SVecSize _ _ _ _ | SSyncLocal _ _ => true
+  | SCStr _ _ | SRef _ _ | SRefArrHead _ _ _ _ _ _ | SCleanRefs _ _ _ _ _ | SVecSize _ _ _ _ | SSyncLocal _ _ => true
   | SBytes _ _ n | SResize _ _ n => expr_total n
   | SFor _ n b => expr_total n && stmt_total b
   | SLocal _ _ e => expr_total e
@@ -106,7 +106,6 @@ Section Sound.
       + eexists; reflexivity.
     - cbv zeta. destruct m; [|eexists; reflexivity].
       destruct (eof st); [eexists; reflexivity|]. destruct (_ <? remaining st); eexists; reflexivity.
-    - cbv zeta. apply iter_loop_total. intros s0. eexists; reflexivity.
     - cbv zeta. destruct m; [destruct (read st w) as [got st1]|]; eexists; reflexivity.
     - destruct (eval_total n st) as (z & ->); auto. cbn. eexists; reflexivity.
     - destruct (eval_total n st) as (z & ->); auto. cbn [bind]. apply iter_loop_total. intros s0. apply IHs. auto.
